@@ -569,9 +569,64 @@ class FieldInterp(Interp):
 
     SCALARS = ("double", "float", "real_type", "celeritas::real_type")
 
-    def __init__(self, func, accessors, fields=None):
+    BUILTIN = ("make_array", "ipow", "dot_product", "gemv", "gemm", "range", "to_int")
+    MAX_DEPTH = 4
+
+    def __init__(self, func, accessors, fields=None, lookup=None, depth=0):
+        """lookup(qualified callee name, number of arguments, is_method) -> function record with an
+        expression tree (or None): lets a body call other const methods of the same object
+        (`this->f(args)` / `f(args)`) and free helper functions; the callee's body is interpreted
+        with the same member symbols.  Recursion depth is bounded."""
         Interp.__init__(self, func, accessors)
         self.fields = fields if fields is not None else {}
+        self.lookup = lookup
+        self.depth = depth
+
+    def call_function(self, n):
+        """Value of a call whose callee is neither an accessor hook nor a builtin, obtained by
+        interpreting the callee's body; None if this route does not apply."""
+        if self.lookup is None:
+            return None
+        cal = n.get("callee", "")
+        if not cal or cal in self.acc or cal.split("::")[-1] in self.BUILTIN:
+            return None
+        is_method = n["k"] == "CXXMemberCallExpr"
+        if is_method:
+            callee = strip(n["c"][0], also=TRANSPARENT_EXTRA)
+            recv = strip(callee["c"][0], also=TRANSPARENT_EXTRA) if callee is not None and callee["k"] == "MemberExpr" \
+                and callee["c"] else None
+            if recv is None or recv["k"] != "CXXThisExpr":
+                return None                  # a method of another object
+        g = self.lookup(cal, len(n["c"]) - 1, is_method)
+        if g is None:
+            return None
+        if self.depth >= self.MAX_DEPTH:
+            raise OutOfVocabulary("calls nested deeper than %d at %s" % (self.MAX_DEPTH, cal))
+        ret = g.r.get("ret", "").replace("const ", "").replace("celeritas::", "").replace("&", "").strip()
+        if ret not in ("double", "float", "real_type", "Real3", "Array<double, 3>", "int", "bool"):
+            raise OutOfVocabulary("call of %s returning %s" % (cal, g.r.get("ret")))
+        if is_method and not g.r.get("const") and not g.r.get("static"):
+            raise OutOfVocabulary("call of the non-const method " + cal)
+        args = [self.ev(c) for c in n["c"][1:]]
+        params = g.r.get("params", [])
+        if len(params) != len(args):
+            raise OutOfVocabulary("call of %s with %d arguments" % (cal, len(args)))
+        sub = FieldInterp(g, self.acc, self.fields, self.lookup, self.depth + 1)
+        for prm, v in zip(params, args):
+            if isinstance(v, tuple):
+                raise OutOfVocabulary("argument of %s outside the vocabulary: %r" % (cal, v))
+            if prm["n"]:
+                sub.env[prm["n"]] = list(v) if isinstance(v, list) else v
+        sub.steps = self.steps
+        try:
+            sub.run(g.r["ast"])
+            val = None
+        except Return as r:
+            val = r.v
+        self.steps = sub.steps
+        if val is None:
+            raise OutOfVocabulary("call of %s returns nothing" % cal)
+        return list(val) if isinstance(val, list) else val
 
     def field(self, n):
         import re
@@ -603,6 +658,11 @@ class FieldInterp(Interp):
                 fn = self.ev(n["c"][1])
                 if isinstance(fn, tuple) and fn and fn[0] == "construct" and ("call:" + fn[1]) in self.acc:
                     return self.acc["call:" + fn[1]](fn[2], [self.ev(c) for c in n["c"][2:]], n)
+            if k in ("CallExpr", "CXXMemberCallExpr") and "cval" not in n:
+                v = self.call_function(n)
+                if v is not None:
+                    self.tick()
+                    return v
         return Interp.ev(self, n)
 
     def lval(self, n):
